@@ -86,9 +86,12 @@ class Func:
         self.is_static = any(d in ("staticmethod",) for d in self.decorators)
         self.is_generator = any(isinstance(n, (ast.Yield, ast.YieldFrom)) for n in own_nodes(node))
         self.declared_global = set()
+        self.declared_nonlocal = set()
         for n in own_nodes(node):
             if isinstance(n, ast.Global):
                 self.declared_global.update(n.names)
+            elif isinstance(n, ast.Nonlocal):
+                self.declared_nonlocal.update(n.names)
         self.local_imports = {}
         for n in own_nodes(node):
             if isinstance(n, ast.Import):
@@ -103,7 +106,7 @@ class Func:
         self.locals = set(self.params)
         for n in own_nodes(node):
             for t in binding_targets(n):
-                if t not in self.declared_global:
+                if t not in self.declared_global and t not in self.declared_nonlocal:
                     self.locals.add(t)
 
     @property
